@@ -236,6 +236,13 @@ pub fn run(tier: Tier) -> i32 {
         "<?xml version=\"1.0\"?>\u{FEFF}<svg><rect wh=\"5\"/></svg>".into(),
         format!("{}{}<svg xmlns=\"{ns}\"><rect width=\"5\" height=\"5\"/></svg>", '\u{FEFF}', '\u{FEFF}'),
         "<svg><rect wh=\"5\" text=\"a&#xFEFF;b\"/></svg>".into(),
+        // fourth review round: a first pass must not succeed with an output which has no root
+        "<!DOCTYPE svg [<!ENTITY foo \"bar\">]><svg><specs><rect id=\"a\" wh=\"5\" title=\"&foo;\"/></specs><rect wh=\"5\"/></svg>".into(),
+        "<!-- kept --><svg><rect wh=\"5\"/><g><specs><rect id=\"a\" wh=\"5\" title=\"&#0;\"/></specs></g><rect wh=\"5\"/></svg>".into(),
+        "<!DOCTYPE svg [<!ENTITY lt2 \"<\">]>\n<svg>\n  <rect wh=\"5\"/>\n</svg>\n<!-- > -->".into(),
+        format!("<!DOCTYPE svg [<!-- a < b -->]>\n<svg xmlns=\"{ns}\"><rect width=\"5\" height=\"5\"/></svg>\n<?note 1 > 0 ?>"),
+        format!("<!DOCTYPE svg [<!ENTITY n \"{ns}\">]><svg xmlns=\"&n;\"><rect width=\"5\" height=\"5\"/></svg>"),
+        "<!DOCTYPE svg [<!ENTITY w \"10\">]><svg><rect wh=\"&w;\" text=\"&w; &amp; &lt;\"/></svg>".into(),
     ];
     let st = run_space(odd.len(), |i| {
         let mut r = check(&odd[i], "odd-spellings", &c1, &c2);
